@@ -196,7 +196,9 @@ fn u_reduce(nr: usize, nm: usize, kinds: [u8; 3], ops: [u8; 3]) {
         let last_op = unsafe { PLAN_OP[0][nr - 1] };
         chk!(3, need == (last_op == OP_DISPATCH), "need_dispatch is true for Dispatch and false for Keep (last reducer decides)");
         chk!(18, m(&store).action_reduced.load(Ordering::SeqCst) == reduced0 + 1, "action_reduced counts the reduced action once");
-        kani::cover!(!need, "COVER a Keep answer occurred");
+        if ops[nr - 1] != OP_DISPATCH {
+            kani::cover!(!need, "COVER-OPT a Keep answer occurred");
+        }
     }
     chk!(18, m(&store).middleware_executed.load(Ordering::SeqCst) == mwx0 + mm.n_called, "middleware_executed counts the hooks actually invoked");
     // effects returned = the attached ones, in reducer order
@@ -244,8 +246,12 @@ fn u_reduce(nr: usize, nm: usize, kinds: [u8; 3], ops: [u8; 3]) {
             chk!(11, n_eff_expected == 0, "no effect list although reducers attached effects");
         }
     }
-    kani::cover!(mm.done, "COVER before_reduce vetoed the action");
-    kani::cover!(nm > 1 && !mm.called[nm - 1], "COVER BreakChain skipped a before_reduce hook");
+    if nm > 0 {
+        kani::cover!(mm.done, "COVER-OPT before_reduce vetoed the action");
+    }
+    if nm > 1 {
+        kani::cover!(!mm.called[nm - 1], "COVER-OPT BreakChain skipped a before_reduce hook");
+    }
     core::mem::forget(store);
     finish!(1, 3, 7, 11, 12, 18);
 }
@@ -330,11 +336,23 @@ harness! { #[kani::unwind(6)] fn u_notify_s1_m1() { u_notify(1, 1); } }
 /// which would make the vector length symbolic)
 /// effects of (concrete) kinds k0,k1 (E_NONE = absent); middleware i removes the positions in
 /// masks[i] (concrete); verdicts, state and action are symbolic
-fn u_effect(k0: u8, k1: u8, nm: usize, masks: [u8; 3]) {
+fn u_effect(k0: u8, k1: u8, nm: usize, masks: [u8; 3], verdicts: [u8; 3]) {
     rt::reset_all();
     script::reset();
     let store = mk_store(1, nm, 4, BackpressurePolicy::BlockOnFull, kani::any());
     symbolic_verdicts(1, nm);
+    // verdicts[i] == 9: symbolic; otherwise the before_effect verdict of middleware i is fixed
+    // (robustness: code whose handling of the effect list depends on the verdict stays
+    // tractable when the verdict is concrete)
+    let mut i = 0;
+    while i < nm {
+        if verdicts[i] != 9 {
+            unsafe {
+                VERDICT[0][i][H_EFFECT] = verdicts[i];
+            }
+        }
+        i += 1;
+    }
     let mut i = 0;
     while i < nm {
         // concrete: a symbolic removal makes the effect vector's length symbolic
@@ -429,14 +447,20 @@ fn u_effect(k0: u8, k1: u8, nm: usize, masks: [u8; 3]) {
     finish!(7, 11, 12, 18);
 }
 
-harness! { #[kani::unwind(6)] fn u_effect_task_thunk_m1() { u_effect(E_TASK, E_THUNK, 1, [0, 0, 0]); } }
-harness! { #[kani::unwind(6)] fn u_effect_task_thunk_m1_rm0() { u_effect(E_TASK, E_THUNK, 1, [1, 0, 0]); } }
-harness! { #[kani::unwind(6)] fn u_effect_function_action_m1_rm1() { u_effect(E_FUNCTION, E_ACTION, 1, [2, 0, 0]); } }
-harness! { #[kani::unwind(6)] fn u_effect_action_task_m0() { u_effect(E_ACTION, E_TASK, 0, [0, 0, 0]); } }
-harness! { #[kani::unwind(6)] fn u_effect_thunk_m2_rm() { u_effect(E_THUNK, E_NONE, 2, [1, 0, 0]); } }
-harness! { #[kani::unwind(6)] fn u_effect_task_task_m2_rm() { u_effect(E_TASK, E_TASK, 2, [1, 0, 0]); } }
-harness! { #[kani::unwind(6)] fn u_effect_function_thunk_m3() { u_effect(E_FUNCTION, E_THUNK, 3, [2, 0, 0]); } }
-harness! { #[kani::unwind(6)] fn u_effect_thunk_function_m2_all() { u_effect(E_THUNK, E_FUNCTION, 2, [3, 0, 0]); } }
+harness! { #[kani::unwind(6)] fn u_effect_task_thunk_m1() { u_effect(E_TASK, E_THUNK, 1, [0, 0, 0], [9, 9, 9]); } }
+harness! { #[kani::unwind(6)] fn u_effect_task_thunk_m1_rm0() { u_effect(E_TASK, E_THUNK, 1, [1, 0, 0], [9, 9, 9]); } }
+harness! { #[kani::unwind(6)] fn u_effect_function_action_m1_rm1() { u_effect(E_FUNCTION, E_ACTION, 1, [2, 0, 0], [9, 9, 9]); } }
+harness! { #[kani::unwind(6)] fn u_effect_action_task_m0() { u_effect(E_ACTION, E_TASK, 0, [0, 0, 0], [9, 9, 9]); } }
+harness! { #[kani::unwind(6)] fn u_effect_thunk_m2_rm() { u_effect(E_THUNK, E_NONE, 2, [1, 0, 0], [9, 9, 9]); } }
+harness! { #[kani::unwind(6)] fn u_effect_task_task_m2_rm() { u_effect(E_TASK, E_TASK, 2, [1, 0, 0], [9, 9, 9]); } }
+harness! { #[kani::unwind(6)] fn u_effect_function_thunk_m3() { u_effect(E_FUNCTION, E_THUNK, 3, [2, 0, 0], [9, 9, 9]); } }
+harness! { #[kani::unwind(6)] fn u_effect_thunk_function_m2_all() { u_effect(E_THUNK, E_FUNCTION, 2, [3, 0, 0], [9, 9, 9]); } }
+
+harness! { #[kani::unwind(6)] fn u_effect_task_thunk_m1_done() { u_effect(E_TASK, E_THUNK, 1, [0, 0, 0], [V_DONE, 9, 9]); } }
+harness! { #[kani::unwind(6)] fn u_effect_task_thunk_m1_break() { u_effect(E_TASK, E_THUNK, 1, [0, 0, 0], [V_BREAK, 9, 9]); } }
+harness! { #[kani::unwind(6)] fn u_effect_function_action_m1_err() { u_effect(E_FUNCTION, E_ACTION, 1, [0, 0, 0], [V_ERR, 9, 9]); } }
+harness! { #[kani::unwind(6)] fn u_effect_task_task_m2_done_cont() { u_effect(E_TASK, E_TASK, 2, [1, 0, 0], [V_DONE, V_CONTINUE, 9]); } }
+harness! { #[kani::unwind(6)] fn u_effect_thunk_function_m2_cont_done() { u_effect(E_THUNK, E_FUNCTION, 2, [0, 0, 0], [V_CONTINUE, V_DONE, 9]); } }
 
 /// vacuity twin: wrong oracles (Done does not veto; subscribers called twice) must be refuted
 harness! { #[kani::unwind(6)] fn twin_u_phase() {
